@@ -314,7 +314,7 @@ SPECS["C19"] = dict(
     queries=[c19("cons_%s_b5" % GEOMS[g], "harness_consistency", g, 5, "quick") for g in range(1, 9)]
     + [c19("init_%s" % GEOMS[g], "harness_init", g, 5, "quick") for g in (2, 4, 8)]
     + [c19("pure_square_b3", "harness_purity", 2, 3, "quick", cost=4), c19("pure_torus_b3", "harness_purity", 3, 3, "quick", cost=4),
-       c19("pure_hexagon_b2", "harness_purity", 1, 2, "quick", timeout=1800, cost=9)]
+       c19("pure_hexagon_b2", "harness_purity", 1, 2, "thorough", timeout=3000, cost=9)]
     + [c19("cons_%s_b9" % GEOMS[g], "harness_consistency", g, 9, "thorough", timeout=1800) for g in range(1, 9)]
     + [c19("pure_square_b4", "harness_purity", 2, 4, "thorough", timeout=2400), c19("pure_torus_b4", "harness_purity", 3, 4, "thorough", timeout=2400)],
 )
@@ -483,3 +483,21 @@ SPECS["C10"]["queries"] += [
 ]
 SPECS["C10"]["assumptions"] += ["serial drain: per-LP initialisation/finalisation (LP_INIT/LP_FINI dispatch, generator seeding) is not part of this query; the model respects the API contract 'never schedule an event before the one being processed in the full event order' (the runtime itself checks it in debug builds)"]
 SPECS["C10"]["outside"] += ["serial_simulation_init / serial_simulation_fini (LP_INIT once per LP first, LP_FINI once per LP last) are not encoded", "stop conditions (all predicates hold / termination time) are not exercised: predicates are constantly false"]
+
+LEVEL_TEXTS = {
+    "C05": "inductive step queries on the real checkpoint code from arbitrary invariant-satisfying trees (traversal, take, restore on 8-16 leaves) plus every (arenas at checkpoint, arenas at rollback) combination of up to 3 arenas; covers call histories of any length inside the shrunk geometry, not the real 64 KiB arena",
+    "C07": "bounded model checking of the real termination module: every sequence of up to 5 (thorough 8) forward executions / rollbacks / GVT rounds on 2-3 LPs from the real initialisation, against a ghost monitor written from the property statement",
+    "C10": "heap induction (one real insert/extract from an arbitrary heap) plus a bounded drain of the real serial loop compared with an independent textbook executor; initialisation/finalisation and stop conditions are not encoded",
+    "C12": "inductive step queries: one real allocator call from an arbitrary state satisfying the representation invariant (single arena up to 64 leaves; up to 3 arenas in any address order), so histories of any length are covered inside the shrunk geometry",
+    "C13": "inductive step: one real fossil collection from an arbitrary history and checkpoint log satisfying the structural invariant, followed by an arbitrary legal rollback",
+    "C14": "bounded arithmetic: the real lp_global_init / lp_init / lp_fini for every (LPs, ranks, threads, rank, thread, LP) inside the bound; ranges are shown to be exactly the preimages of the routing functions",
+    "C15": "sequential rely/guarantee encoding of the real queue: every interleaving in which other threads' whole operations run at each atomic step of the thread under test, plus heap induction; cross interleavings of two multi-step operations rest on the mover argument in DESIGN.md 2.4",
+    "C16": "bounded: the real comparison functions on three arbitrary messages for every timestamp, flag, type, size and payload inside the payload bound, against the documented tie-break written independently",
+    "C17": "bounded model checking of the real barrier under CBMC's thread encoding: all interleavings (SC; TSO in the thorough tier) of 2-3 threads over 5-9 consecutive uses; spin loops cut after 2 failed iterations (stutter-equivalent)",
+    "C18": "bounded: every generator state (raw output over all 2^64 values) for Random/RandomRange/RandomRangeNonUniform; Poisson/Gamma/Zipf under libm contracts and a contract stub of Random(); widths, Gamma order and rejection loops bounded as stated",
+    "C19": "bounded: every geometry, size up to 5 (thorough 9), source, direction and draw; the random choice is compared across real intervening queries of another LP (purity) on grids up to 3x3",
+}
+for _k, _v in LEVEL_TEXTS.items():
+    SPECS[_k].setdefault("level_text", _v)
+for _k in SPECS:
+    SPECS[_k].setdefault("technique", "bounded model checking (CBMC 6.11: goto-cc build of a harness with the real translation units, SAT/SMT verdict over all symbolic inputs within stated bounds, unwinding assertions on; counterexamples replayed natively)")
